@@ -220,7 +220,9 @@ Proof. exact rebuild_same_for_validation. Qed.
     With C13_noninterference in mind: a consumer that sees the schema only through these lookups
     and does not depend on map order computes the same on R and on (S, F).  What stays outside:
     the validator itself (C04's model), the presence of argument defaults (not part of C13's
-    lookups; it is part of [canon], previous theorem), introspection's own listings (the QIntro queries). *)
+    lookups; it is part of [canon], previous theorem).  Final round: the introspection view
+    (types listing, __type(name:), fields, interfaces, possibleTypes, directives) is covered too:
+    the statement holds for EVERY lookup [q] of C13's model, all three views. *)
 Theorem C10_rebuild_same_lookups : forall S F r,
   depth_ok S = true -> interfaces_declared_once S = true -> locations_known S = true ->
   refs_defined S = true -> gating_nested S = true -> roots_visible S F = true ->
@@ -228,10 +230,10 @@ Theorem C10_rebuild_same_lookups : forall S F r,
   NoDup (map fst (types S)) -> FM.schema_ok (to_feat (registered S)) = true ->
   introspect (print_default S) S F = IntroOk r ->
   exists R, rebuild (map_defaults dflt_text r) = Some R /\
-    forall G q, FM.in_view_validator q || FM.in_view_executor q = true ->
+    forall G q,
       (forall h, In h (FM.handle_args q) -> FS.visible (to_feat (registered S)) F h = true) ->
       ans_eq (FM.ask FM.fixed (to_feat R) G q) (FM.ask FM.fixed (to_feat (registered S)) F q).
-Proof. exact rebuild_same_lookups_full. Qed.
+Proof. exact rebuild_same_lookups_all. Qed.
 
 (** The verdicts themselves, composed with C13's theorem about C04's validator model
     ([C13_C04_validate_eq]: for every document, C04's [validate_model] answers the same on (S, F)
@@ -268,11 +270,12 @@ Theorem C10_rebuild_same_verdicts_given_validator_locality :
 Proof. exact rebuild_same_verdicts_given_locality. Qed.
 
 (** two C13 schemas that are the same up to map order and feature annotations ([fsim]) answer
-    every lookup of the validator's and the executor's view alike for requests that see everything in them *)
+    every lookup (validator's, executor's and introspection's view: all of C13's [query_]) alike for
+    requests that see everything in them *)
 Theorem C10_similar_schemas_answer_alike : forall A B GA GB,
   fsim A B -> all_visible A GA -> all_visible B GB ->
-  forall q, FM.in_view_validator q || FM.in_view_executor q = true -> ans_eq (FM.ask FM.fixed A GA q) (FM.ask FM.fixed B GB q).
-Proof. exact ask_sim. Qed.
+  forall q, ans_eq (FM.ask FM.fixed A GA q) (FM.ask FM.fixed B GB q).
+Proof. exact ask_sim_all. Qed.
 
 (** KNOWN (key rebuilt-scalar-accepts-any-literal): [scalars_accept_all] cannot be dropped.  With
     every other hypothesis in place, a custom scalar whose literal coercion rejects something is
